@@ -311,7 +311,7 @@ class MTVRPEnv(RL4COEnvBase):
             td["time_windows"][..., 0] < td["time_windows"][..., 1]
         ), "there are unfeasible time windows"
         assert torch.all(
-            td["time_windows"][..., :, 0] + d_j0 + td["service_time"]
+            td["time_windows"][..., :, 0] + d_j0 / td["speed"] + td["service_time"]
             <= td["time_windows"][..., 0, 1, None]
         ), "vehicle cannot perform service and get back to depot in time."
         # check individual time windows
@@ -334,7 +334,8 @@ class MTVRPEnv(RL4COEnvBase):
             curr_length[next_node == 0] = 0.0  # reset length for depot
 
             curr_time = torch.max(
-                curr_time + dist, gather_by_index(td["time_windows"], next_node)[..., 0]
+                curr_time + dist / td["speed"].squeeze(-1),
+                gather_by_index(td["time_windows"], next_node)[..., 0],
             )
             assert torch.all(
                 curr_time <= gather_by_index(td["time_windows"], next_node)[..., 1]
@@ -351,7 +352,8 @@ class MTVRPEnv(RL4COEnvBase):
             (curr_length + dist_back) * closed <= td["distance_limit"].squeeze(-1)
         ), "Route exceeds distance limit"
         assert torch.all(
-            (curr_time + dist_back) * closed <= td["time_windows"][..., 0, 1]
+            (curr_time + dist_back / td["speed"].squeeze(-1)) * closed
+            <= td["time_windows"][..., 0, 1]
         ), "vehicle cannot get back to depot in time"
 
         # Backhaul constraint (B): within a route all linehauls are served before any backhaul
